@@ -1,7 +1,234 @@
 package main
 
-func runFixtures(prop string) (fails []string, log []string) { return nil, nil }
+import (
+	"encoding/json"
+	"fmt"
+	"os"
+	"os/exec"
+	"path/filepath"
+	"sort"
+	"strings"
+	"sync"
+)
 
-func runThorough(repo string, rule *PropertyRule, res *RunResult, p *Prog) {}
+// childResult is what a variant / audit child process reports on stdout.
+type childResult struct {
+	Variant  string        `json:"variant"`
+	Obs      []*Obligation `json:"obs"`
+	Failures []string      `json:"failures"`
+	Funcs    int           `json:"funcs"`
+}
 
-func runVariantChild(repo string, rule *PropertyRule, variant string) int { return 0 }
+// runVariantChild loads one build variant (or one audit overlay) in its own
+// process (memory: one program per process) and prints the obligations.
+func runVariantChild(repo string, rule *PropertyRule, variant string) int {
+	v, ok := variants[variant]
+	if !ok && strings.HasPrefix(variant, "audit:") {
+		m, err := findMutant(strings.TrimPrefix(variant, "audit:"))
+		if err != nil {
+			fmt.Println(`{"failures":["` + err.Error() + `"]}`)
+			return 0
+		}
+		path := filepath.Join(repo, m.File)
+		src, err := os.ReadFile(path)
+		if err != nil || strings.Count(string(src), m.Find) != 1 {
+			out, _ := json.Marshal(childResult{Variant: variant, Failures: []string{"neutraliser not applicable: pattern not found exactly once in " + m.File}})
+			fmt.Println(string(out))
+			return 0
+		}
+		mod := strings.Replace(string(src), m.Find, m.Replace, 1)
+		if m.Pre == "import-time" {
+			mod = strings.Replace(mod, "import (\n", "import (\n\t\"time\"\n", 1)
+		}
+		v = Variant{Name: variant, Overlay: map[string][]byte{path: []byte(mod)}}
+		ok = true
+	}
+	if !ok {
+		fmt.Println(`{"failures":["unknown variant"]}`)
+		return 0
+	}
+	res := childResult{Variant: variant}
+	p, err := Load(repo, v)
+	if err != nil {
+		res.Failures = append(res.Failures, "load failed ("+variant+"): "+err.Error())
+	} else {
+		c, fails := runOnProg(p, rule)
+		res.Obs = c.Obs
+		res.Failures = fails
+		res.Funcs = len(p.RuleFuncs)
+		if !strings.HasPrefix(variant, "audit:") {
+			res.Failures = append(res.Failures, checkFloors(rule.ID, c)...)
+		}
+	}
+	out, _ := json.Marshal(res)
+	fmt.Println(string(out))
+	return 0
+}
+
+type Mutant struct {
+	Name    string   `json:"name"`
+	File    string   `json:"file"`
+	Find    string   `json:"find"`
+	Replace string   `json:"replace"`
+	Expect  []string `json:"expect"`
+	Silent  []string `json:"silent"`
+	Pre     string   `json:"pre"`
+	Note    string   `json:"note"`
+}
+
+func loadMutants() ([]Mutant, error) {
+	b, err := os.ReadFile(filepath.Join(verifDir(), "checker", "audit", "mutants.json"))
+	if err != nil {
+		return nil, err
+	}
+	var ms []Mutant
+	if err := json.Unmarshal(b, &ms); err != nil {
+		return nil, err
+	}
+	return ms, nil
+}
+
+func findMutant(name string) (Mutant, error) {
+	ms, err := loadMutants()
+	if err != nil {
+		return Mutant{}, err
+	}
+	for _, m := range ms {
+		if m.Name == name {
+			return m, nil
+		}
+	}
+	return Mutant{}, fmt.Errorf("no neutraliser named %s", name)
+}
+
+func runChild(repo, prop, variant string) (*childResult, error) {
+	exe, err := os.Executable()
+	if err != nil {
+		return nil, err
+	}
+	cmd := exec.Command(exe, "-property", prop, "-repo", repo, "-variant", variant)
+	cmd.Env = os.Environ()
+	out, err := cmd.Output()
+	if err != nil {
+		return nil, fmt.Errorf("child %s: %v", variant, err)
+	}
+	var res childResult
+	// the JSON is the last line
+	lines := strings.Split(strings.TrimSpace(string(out)), "\n")
+	if err := json.Unmarshal([]byte(lines[len(lines)-1]), &res); err != nil {
+		return nil, fmt.Errorf("child %s: bad output: %v", variant, err)
+	}
+	return &res, nil
+}
+
+// runThorough: the other build variants, then the sensitivity audit
+// (DESIGN §3.6): every registered neutraliser of this property is applied as an
+// in-memory overlay, must still type-check, and must turn some obligation
+// violated; a neutraliser registered as behaviour-preserving must stay silent.
+func runThorough(repo string, rule *PropertyRule, res *RunResult, p *Prog) {
+	for _, vn := range []string{"with_tla", "386"} {
+		cr, err := runChild(repo, rule.ID, vn)
+		if err != nil {
+			res.Failures = append(res.Failures, err.Error())
+			continue
+		}
+		res.Variants = append(res.Variants, vn)
+		res.Obs = append(res.Obs, cr.Obs...)
+		for _, f := range cr.Failures {
+			res.Failures = append(res.Failures, "["+vn+"] "+f)
+		}
+	}
+	ms, err := loadMutants()
+	if err != nil {
+		res.Failures = append(res.Failures, "audit: cannot read neutralisers: "+err.Error())
+		return
+	}
+	type job struct {
+		m      Mutant
+		expect bool
+	}
+	var jobs []job
+	for _, m := range ms {
+		for _, e := range m.Expect {
+			if e == rule.ID {
+				jobs = append(jobs, job{m, true})
+			}
+		}
+		for _, e := range m.Silent {
+			if e == rule.ID {
+				jobs = append(jobs, job{m, false})
+			}
+		}
+	}
+	type outcome struct {
+		Name     string   `json:"name"`
+		Expect   string   `json:"expect"`
+		Result   string   `json:"result"`
+		Reported []string `json:"reported,omitempty"`
+	}
+	outcomes := make([]outcome, len(jobs))
+	var wg sync.WaitGroup
+	sem := make(chan struct{}, 6)
+	for i, j := range jobs {
+		wg.Add(1)
+		go func(i int, j job) {
+			defer wg.Done()
+			sem <- struct{}{}
+			defer func() { <-sem }()
+			o := outcome{Name: j.m.Name, Expect: map[bool]string{true: "detected", false: "silent"}[j.expect]}
+			cr, err := runChild(repo, rule.ID, "audit:"+j.m.Name)
+			if err != nil {
+				o.Result = "error: " + err.Error()
+				outcomes[i] = o
+				return
+			}
+			bad := 0
+			for _, ob := range cr.Obs {
+				if ob.Status == StViolated || ob.Status == StUndecided {
+					bad++
+					if len(o.Reported) < 3 {
+						o.Reported = append(o.Reported, ob.Rule+" | "+ob.Construct+" | "+ob.Func+" @ "+ob.Site)
+					}
+				}
+			}
+			switch {
+			case len(cr.Failures) > 0 && strings.Contains(strings.Join(cr.Failures, ";"), "not applicable"):
+				o.Result = "not-applicable"
+			case len(cr.Failures) > 0 && strings.Contains(strings.Join(cr.Failures, ";"), "load failed"):
+				o.Result = "does-not-compile"
+			case bad > 0 || len(cr.Failures) > 0:
+				o.Result = "detected"
+				if len(o.Reported) == 0 {
+					o.Reported = cr.Failures
+				}
+			default:
+				o.Result = "silent"
+			}
+			outcomes[i] = o
+		}(i, j)
+	}
+	wg.Wait()
+	sort.Slice(outcomes, func(a, b int) bool { return outcomes[a].Name < outcomes[b].Name })
+	tried, detected, silentOK := 0, 0, 0
+	for _, o := range outcomes {
+		switch o.Result {
+		case "not-applicable", "does-not-compile":
+			continue
+		}
+		tried++
+		if o.Expect == "detected" {
+			if o.Result == "detected" {
+				detected++
+			} else {
+				res.Failures = append(res.Failures, fmt.Sprintf("audit: insensitive rule: neutraliser %s was not detected (%s)", o.Name, o.Result))
+			}
+		} else {
+			if o.Result == "silent" {
+				silentOK++
+			} else {
+				res.Failures = append(res.Failures, fmt.Sprintf("audit: false alarm: behaviour-preserving variant %s was reported: %v", o.Name, o.Reported))
+			}
+		}
+	}
+	res.Audit = map[string]any{"tried": tried, "detected": detected, "behaviour_preserving_silent": silentOK, "outcomes": outcomes}
+}
